@@ -74,6 +74,10 @@ def c03_forms(rng, n):
         else:
             w = rng.randrange(7)
             name = _pick_dow(rng, w)
+            if rng.random() < 0.2:
+                # abbreviations written with their dot ("fri. next week", "nächsten mo.")
+                name = rng.choice([["mon.", "tue.", "wed.", "thu.", "fri.", "sat.", "sun."][w],
+                                   ["mo.", "di.", "mi.", "do.", "fr.", "sa.", "so."][w]])
             kind = rng.choice(["this", "this", "next", "next", "nextweek", "bare"])
             if kind == "bare":
                 out.append({"c": "dow_after", "p": [w], "s": name, "t": "dow:{w}"})
@@ -237,7 +241,8 @@ ABS_TPL = ["{d:02d}.{m:02d}.{y}", "{d}.{m}.{y}", "{d:02d}/{m:02d}/{y}", "{d:02d}
 ABS_CLOCK = ["", "", " {h}:{mi:02d}", " {h:02d}:{mi:02d}", " {h}:{mi:02d}:{ss:02d}",
              " um {h}:{mi:02d} uhr",
              " at {h}:{mi:02d}", " {h}:{mi:02d} uhr", " {h12}:{mi:02d} {ap}", " at {h12}:{mi:02d}{ap}",
-             " {h12}.{mi:02d} {ap}", " {h}.{mi:02d} uhr", " {h:02d}.{mi:02d} uhr"]
+             " {h12}.{mi:02d} {ap}", " {h}.{mi:02d} uhr", " {h:02d}.{mi:02d} uhr",
+             " {h:02d}{mi:02d} uhr"]
 # clocks given to the hour only (the minute of the answer is 0 or left unset)
 ABS_CLOCK_HOUR = [" {h} uhr", " {h12} {ap}", " at {h12} {ap}", " {h}h", " {h12} o'clock",
                   " um {h} uhr", " {h12}{ap}"]
@@ -278,8 +283,14 @@ def c05_forms(rng, n):
             # century, month or two-digit year)
             h, mi = rng.choice([(m, y // 100), (d % 24, m), (m, y % 100 if y % 100 < 60 else m),
                                 (d % 24, y // 100), (m + 12 if m < 12 else m, y // 100)])
+        mil_clock = None
+        if ck == " {h:02d}{mi:02d} uhr":
+            # four digits + clock word next to a date; half of them spell a year of this century
+            if rng.random() < 0.5:
+                h, mi = 20, rng.choice([15, 18, 20, 21, 24, 25, 30, 33, 40])
+            mil_clock = [h, mi]
         hour_only = False
-        if ck and rng.random() < 0.15:
+        if ck and mil_clock is None and rng.random() < 0.15:
             ck = rng.choice(ABS_CLOCK_HOUR)
             mi, hour_only = 0, True
             if "o'clock" in ck:
@@ -303,7 +314,9 @@ def c05_forms(rng, n):
             # (a German "am <day>" directly after an English am/pm suffix is bilingual noise)
             # and "12:xx am <day>" is genuinely ambiguous between 00:xx and German "am" (C20
             # excludes it for the same reason)
-            j = rng.choice([" ", " on "] + ([" am "] if "{ap}" not in ck and h != 12 else []))
+            # (... and "1 o'clock am <date>" reads as "1 o'clock a.m.")
+            j = rng.choice([" ", " on "] + ([" am "] if "{ap}" not in ck and h != 12
+                                            and "o'clock" not in ck else []))
             s = cs + j + ds
             order = "clock" + j.replace(" ", "_") + "date"
         else:
@@ -321,7 +334,7 @@ def c05_forms(rng, n):
         if two_digit and y < 2000:
             t = "abs:dd.mm.yy-19yy"
         out.append({"c": "abs", "p": p, "s": s, "t": t, "two_digit": two_digit,
-                    "hour_only": hour_only})
+                    "hour_only": hour_only, "mil_clock": mil_clock})
     return out
 
 
